@@ -1099,8 +1099,9 @@ class WholeWithFloat(Sub):
                     elif want == 'err':
                         ok = o[0] == 'e'
                     else:
-                        ok = o[0] == 'v' and isinstance(o[1], (int, float)) and not isinstance(o[1], bool) and (
-                            abs(Fr(o[1]) - want) <= max(abs(want) / 2 ** 52, Fr(5e-324)))
+                        # rounded ONCE: the double nearest to the exact result (a detour through a rounded intermediate - the
+                        # whole number as a double, the whole parts first - lands on a neighbour: 9007199254740993+0.5)
+                        ok = o[0] == 'v' and isinstance(o[1], (int, float)) and not isinstance(o[1], bool) and o[1] == float(want)
                     if not ok:
                         out.append(fail('%s with the whole number %s and xf = %r gives %r, expected %s' % (
                             text[:80], _brief(str(w)), f, o, '#DIV/0!' if want == 'div0' else (
